@@ -51,6 +51,29 @@ func injectedErr(s *Sim, f *FaultSpec, salt string) error {
 	}
 	return errInjected
 }
+// injErr: the error a Database call made to fail returns - a private error, io.EOF, a driver's "query cancelled" wrapping
+// context.Canceled, or a timeout; which one is a function of the call site and the run.
+func (d *SimDB) injErr() error {
+	salt := "db"
+	if t := d.s.cur; t != nil {
+		salt = fmt.Sprintf("%s#%d", t.ID, t.ord)
+	}
+	h := uint64(1469598103934665603)
+	for _, c := range salt {
+		h = (h ^ uint64(c)) * 1099511628211
+	}
+	h ^= d.s.Spec.MapSeed * 0x9e3779b97f4a7c15
+	switch (h >> 20) % 6 {
+	case 0:
+		return fmt.Errorf("sim: query aborted: %w", context.Canceled)
+	case 1:
+		return io.EOF
+	case 2:
+		return &url.Error{Op: "Get", URL: "https://db.example/", Err: context.DeadlineExceeded}
+	}
+	return errInjected
+}
+
 var errMissing = errors.New("sim: no such entry")
 
 // ActorDir describes one local actor.
@@ -172,7 +195,7 @@ func (d *SimDB) Lock(c context.Context, id *url.URL) error {
 	d.s.monSeam(t, "db", "Lock", d.host())
 	if msg.fault != nil {
 		d.s.logEv(Event{Srv: d.host(), Kind: "db.Lock", ID: ids, Fault: true, Res: "err"})
-		return errInjected
+		return d.injErr()
 	}
 	d.s.logEv(Event{Srv: d.host(), Kind: "db.Lock", ID: ids})
 	return nil
@@ -214,7 +237,7 @@ func (d *SimDB) Unlock(c context.Context, id *url.URL) error {
 	}
 	if msg.fault != nil {
 		d.s.logEv(Event{Srv: d.host(), Kind: "db.Unlock", ID: ids, Fault: true, Res: "err"})
-		return errInjected
+		return d.injErr()
 	}
 	d.s.logEv(Event{Srv: d.host(), Kind: "db.Unlock", ID: ids})
 	return nil
@@ -230,7 +253,7 @@ func (d *SimDB) items(id string, key string) []string {
 
 func (d *SimDB) InboxContains(c context.Context, inbox, id *url.URL) (bool, error) {
 	if f, _ := d.call("InboxContains", ustr(inbox), true); f {
-		return false, errInjected
+		return false, d.injErr()
 	}
 	m := d.getJ(ustr(inbox))
 	if m == nil {
@@ -244,7 +267,7 @@ func (d *SimDB) InboxContains(c context.Context, inbox, id *url.URL) (bool, erro
 
 func (d *SimDB) getPage(method string, iri *url.URL) (vocab.ActivityStreamsOrderedCollectionPage, error) {
 	if f, _ := d.call(method, ustr(iri), true); f {
-		return nil, errInjected
+		return nil, d.injErr()
 	}
 	b, ok := d.store[ustr(iri)]
 	if !ok {
@@ -272,7 +295,7 @@ func (d *SimDB) setPage(method string, p vocab.ActivityStreamsOrderedCollectionP
 		id = ustr(p.GetJSONLDId().Get())
 	}
 	if f, _ := d.call(method, id, true); f {
-		return errInjected
+		return d.injErr()
 	}
 	m, err := encodeType(p)
 	if err != nil {
@@ -307,7 +330,7 @@ func (d *SimDB) owns(id string) bool {
 
 func (d *SimDB) Owns(c context.Context, id *url.URL) (bool, error) {
 	if f, _ := d.call("Owns", ustr(id), true); f {
-		return false, errInjected
+		return false, d.injErr()
 	}
 	res := id != nil && d.owns(id.String())
 	d.s.logEv(Event{Srv: d.host(), Kind: "db.Owns", ID: ustr(id), Res: fmt.Sprint(res)})
@@ -316,7 +339,7 @@ func (d *SimDB) Owns(c context.Context, id *url.URL) (bool, error) {
 
 func (d *SimDB) dirLookup(method string, box *url.URL, sel func(a *ActorDir) (string, string)) (*url.URL, error) {
 	if f, _ := d.call(method, ustr(box), true); f {
-		return nil, errInjected
+		return nil, d.injErr()
 	}
 	for _, a := range d.srv.Actors {
 		k, v := sel(a)
@@ -342,7 +365,7 @@ func (d *SimDB) OutboxForInbox(c context.Context, inboxIRI *url.URL) (*url.URL, 
 
 func (d *SimDB) InboxForActor(c context.Context, actorIRI *url.URL) (*url.URL, error) {
 	if f, _ := d.call("InboxForActor", ustr(actorIRI), true); f {
-		return nil, errInjected
+		return nil, d.injErr()
 	}
 	if v, ok := d.srv.Spec.StoredInbox[ustr(actorIRI)]; ok {
 		d.s.logEv(Event{Srv: d.host(), Kind: "db.InboxForActor", ID: ustr(actorIRI), Res: v})
@@ -355,7 +378,7 @@ func (d *SimDB) InboxForActor(c context.Context, actorIRI *url.URL) (*url.URL, e
 
 func (d *SimDB) Exists(c context.Context, id *url.URL) (bool, error) {
 	if f, _ := d.call("Exists", ustr(id), true); f {
-		return false, errInjected
+		return false, d.injErr()
 	}
 	_, ok := d.store[ustr(id)]
 	d.s.logEv(Event{Srv: d.host(), Kind: "db.Exists", ID: ustr(id), Res: fmt.Sprint(ok)})
@@ -364,7 +387,7 @@ func (d *SimDB) Exists(c context.Context, id *url.URL) (bool, error) {
 
 func (d *SimDB) Get(c context.Context, id *url.URL) (vocab.Type, error) {
 	if f, _ := d.call("Get", ustr(id), true); f {
-		return nil, errInjected
+		return nil, d.injErr()
 	}
 	b, ok := d.store[ustr(id)]
 	if !ok {
@@ -400,7 +423,7 @@ func typeID(t vocab.Type) string {
 func (d *SimDB) write(method string, t vocab.Type) error {
 	id := typeID(t)
 	if f, _ := d.call(method, id, true); f {
-		return errInjected
+		return d.injErr()
 	}
 	if t == nil {
 		return fmt.Errorf("sim: %s(nil)", method)
@@ -425,7 +448,7 @@ func (d *SimDB) Update(c context.Context, t vocab.Type) error { return d.write("
 
 func (d *SimDB) Delete(c context.Context, id *url.URL) error {
 	if f, _ := d.call("Delete", ustr(id), true); f {
-		return errInjected
+		return d.injErr()
 	}
 	delete(d.store, ustr(id))
 	d.Writes++
@@ -435,7 +458,7 @@ func (d *SimDB) Delete(c context.Context, id *url.URL) error {
 
 func (d *SimDB) NewID(c context.Context, t vocab.Type) (*url.URL, error) {
 	if f, _ := d.call("NewID", "", false); f {
-		return nil, errInjected
+		return nil, d.injErr()
 	}
 	task := d.s.cur
 	n := task.calls["db.NewID"]
@@ -458,7 +481,7 @@ func (d *SimDB) NewID(c context.Context, t vocab.Type) (*url.URL, error) {
 
 func (d *SimDB) collection(method string, actorIRI *url.URL, sel func(a *ActorDir) string) (vocab.ActivityStreamsCollection, error) {
 	if f, _ := d.call(method, ustr(actorIRI), true); f {
-		return nil, errInjected
+		return nil, d.injErr()
 	}
 	for _, a := range d.srv.Actors {
 		if a.ID == ustr(actorIRI) {
